@@ -131,7 +131,7 @@ def cmd_run(mid, props):
                 rp = v.split("replay=")[1].split()[0]
                 rec = json.load(open(rp))
                 lines = rec.get("transcript") or []
-                if lines and p not in ("C11", "C18", "C19") and not lines[0].startswith(("goref ", "kpanic ", "gencrash ")):
+                if lines and p not in ("C11", "C18", "C19") and not lines[0].startswith(("goref ", "kpanic ", "gencrash ", "c16panic ", "r19 ")) and sum(len(l) for l in lines) < 300000:
                     cd = os.path.join(ROOT, "corpus", p)
                     os.makedirs(cd, exist_ok=True)
                     open(os.path.join(cd, mid + ".txt"), "w").write("\n".join(lines) + "\n")
